@@ -12,7 +12,7 @@ func init() {
 		Mutant{Name: "c16-pco-first-octet", Prop: "C16", File: p, Old: "\tvar extension uint8 = 1\n", New: "\tvar extension uint8 = 0\n",
 			Expect: "pco.first-octet", Why: "extension bit not set: first octet 0x00"},
 		Mutant{Name: "c16-pco-order", Prop: "C16", File: p, Old: "\t\tif err := binary.Write(buffer, binary.BigEndian, &containerUnit.ProtocolOrContainerID); err != nil {\n\t\t\tlogger.ConvertLog.Warnf(\"Write protocolOrContainerID failed: %+v\", err)\n\t\t}\n\t\tif err := binary.Write(buffer, binary.BigEndian, &containerUnit.LengthOfContents); err != nil {\n\t\t\tlogger.ConvertLog.Warnf(\"Write length of contents failed: %+v\", err)\n\t\t}\n",
-			New: "\t\tif err := binary.Write(buffer, binary.BigEndian, &containerUnit.LengthOfContents); err != nil {\n\t\t\tlogger.ConvertLog.Warnf(\"Write length of contents failed: %+v\", err)\n\t\t}\n\t\tif err := binary.Write(buffer, binary.BigEndian, &containerUnit.ProtocolOrContainerID); err != nil {\n\t\t\tlogger.ConvertLog.Warnf(\"Write protocolOrContainerID failed: %+v\", err)\n\t\t}\n",
+			New:    "\t\tif err := binary.Write(buffer, binary.BigEndian, &containerUnit.LengthOfContents); err != nil {\n\t\t\tlogger.ConvertLog.Warnf(\"Write length of contents failed: %+v\", err)\n\t\t}\n\t\tif err := binary.Write(buffer, binary.BigEndian, &containerUnit.ProtocolOrContainerID); err != nil {\n\t\t\tlogger.ConvertLog.Warnf(\"Write protocolOrContainerID failed: %+v\", err)\n\t\t}\n",
 			Expect: "seq.dual", Why: "length written before the identifier"},
 		Mutant{Name: "c16-pco-nil-container", Prop: "C16", File: p, Old: "\treadingState := ReadingID\n", New: "\treadingState := ReadingLength\n",
 			Expect: "safe.nil / nasConvert.(*ProtocolConfigurationOptions).UnMarshal", Why: "reader starts in the length state with no container allocated"},
@@ -20,6 +20,8 @@ func init() {
 			Expect: "safe.loop / nasConvert.(*ProtocolConfigurationOptions).UnMarshal", Why: "the content state never leaves: a zero-length unit spins forever without consuming input"},
 		Mutant{Name: "c16-pco-contents-prefill", Prop: "C16", File: p, Old: "\t\t\t\tcurContainer.Contents = make([]uint8, curContainer.LengthOfContents)\n", New: "\t\t\t\tcurContainer.Contents = make([]uint8, curContainer.LengthOfContents)\n\t\t\t\tcopy(curContainer.Contents, \"unset\")\n",
 			Expect: "prov.contents", Why: "contents pre-filled with bytes that are not in the input"},
+		Mutant{Name: "c16-pco-shared-scratch", Prop: "C16", File: p, Old: "\tbuffer := new(bytes.Buffer)\n", New: "\tbuffer := &pcoScratch\n\tbuffer.Reset()\n", Also: [][2]string{{"func (protocolConfigurationOptions *ProtocolConfigurationOptions) Marshal() []byte {", "var pcoScratch bytes.Buffer\n\nfunc (protocolConfigurationOptions *ProtocolConfigurationOptions) Marshal() []byte {"}},
+			Expect: "pco.fresh-result", Why: "result aliases a package-level scratch buffer: the next Marshal overwrites an earlier result"},
 		Mutant{Name: "c16-keep-psi-shift-form", Prop: "C16", File: "nasConvert/PSI.go", Old: "if (buf[i/8] & (1 << (i % 8))) > 0 {", New: "if (buf[i>>3]>>(i&7))&1 != 0 {", Keep: true, Why: "same bit, different arithmetic"},
 	)
 }
